@@ -829,6 +829,19 @@ func (w *c03World) history() {
 					return
 				}
 				w.m.Count("closing_window_probes", 1)
+				// a half-closed connection that keeps carrying packets never went idle: every gap is
+				// well inside the 10 s closing timeout although the FIN/RST is soon more than 10 s old
+				for i, n := 0, r.IntN(3); i < n; i++ {
+					w.advance(6e9)
+					if r.IntN(3) == 0 {
+						if !w.step(mk(revHook, rev(ack))) {
+							return
+						}
+					} else if !w.step(mk(fwdHook, ack)) {
+						return
+					}
+					w.m.Count("closing_kept_alive_by_traffic_probes", 1)
+				}
 				if r.IntN(2) == 0 {
 					w.advance(12e9)
 					if !w.step(mk(fwdHook, ack)) { // expired: not judged
